@@ -19,6 +19,7 @@ CONSTANTS
   Order <- OrderAsIs
   CheckAccepts = TRUE
   SimCommits = FALSE
+  WithNext = FALSE
   NextTwoLoads = FALSE
 SYMMETRY Sym
 INVARIANT VisibleImpliesComplete
